@@ -60,6 +60,10 @@ def run(ck: vlib.Check):
     # on this platform they are plain names, and the canonical member path is staredit\\wav\\<that name>
     for nm in ("1:30.wav", "a:b.wav", "x.y.z.wav", "~tilde.wav", "[b]racket.wav", "two  blanks.wav", "nul.wav"):
         jobs.append({"kind": "audio", "base": "scx1", "files": ["wav"], "names": [nm]})
+    # Ogg sounds of lengths at which samples / rate * 1000 is not exact in floating point (89523 samples at 44100 Hz = 2030 ms)
+    for n in (88641, 89523, 177282, 100000, 44100, 1):
+        jobs.append({"kind": "audio", "base": "scx1", "files": ["ogg"], "ogg_granule": n})
+        jobs.append({"kind": "audio", "base": "scm0", "files": ["wav", "ogg"], "ogg_granule": n})
     # sounds with one file name in different archive directories (and different lengths), in both listing orders
     for b in ("scx1", "scm0"):
         jobs.append({"kind": "same-basename", "base": b,
